@@ -80,6 +80,125 @@ SCRIPTS_ALL.update(RR_SCRIPTS)
 SCRIPTS_ALL.update(JOLIET_SCRIPTS)
 
 
+FLAVOURS = {
+    'plain': dict(), 'level3': dict(interchange_level=3), 'joliet': dict(joliet=3), 'rr109': dict(rock_ridge='1.09'), 'rr112': dict(rock_ridge='1.12'),
+    'rr110-joliet': dict(rock_ridge='1.10', joliet=2), 'rr112-joliet-xa': dict(rock_ridge='1.12', joliet=3, xa=True),
+}
+
+
+def random_script(flavour, seed, nops=28):
+    """a random but well-formed edit history (deterministic in flavour and seed): files of boundary sizes, directories, removals,
+    hard links in both namespaces, symbolic links, hidden flags - every operation is one the library must accept, chosen from
+    the current state of the tree"""
+    import random
+    rnd = random.Random('%s/%d' % (flavour, seed))
+    kw = FLAVOURS[flavour]
+    rr, jol = 'rock_ridge' in kw, 'joliet' in kw
+    maxdepth = 10 if rr else 6
+    dirs = {'': ('', '')}            # iso dir path -> (rr name of the dir itself, joliet path)
+    files = {}                       # iso path -> dict(j=[joliet paths], cid, links=[other iso paths])
+    contents = 0
+    ops = []
+    counter = [0]
+
+    def fresh():
+        counter[0] += 1
+        return counter[0]
+
+    def rrname(k):
+        n = rnd.choice([1, 5, 30, 120, 200, 251, 400]) if rnd.random() < 0.4 else rnd.randint(1, 20)
+        base = 'n%d-' % k
+        return (base + 'x' * n)[:max(n, len(base))]
+
+    def jname(k):
+        alphabet = ['a', 'B', ' ', '\u00e9', '\u65e5', '.', '-']
+        n = rnd.choice([1, 7, 40, 64]) if rnd.random() < 0.3 else rnd.randint(1, 15)
+        tail = ''.join(rnd.choice(alphabet) for _ in range(n))
+        name = ('j%d' % k + tail)[:max(1, min(64, n + 2))]
+        while len(name.encode('utf-8')) > 64:      # the library's limit is 64 UTF-8 bytes
+            name = name[:-1]
+        return name.rstrip(' .') or 'j%d' % k
+
+    for _ in range(nops):
+        r = rnd.random()
+        parents = [d for d in dirs if d.count('/') < maxdepth - 1]
+        if r < 0.38 or not files:
+            d = rnd.choice(parents)
+            k = fresh()
+            ip = '%s/F%d.;1' % (d, k)
+            size = rnd.choice([0, 1, 5, 2047, 2048, 2049, 4096, 5000])
+            rn = rrname(k) if rr else None
+            jp = (dirs[d][1] + '/' + jname(k)) if (jol and rnd.random() < 0.8) else None
+            ops.append(('file', ip, rn, jp, size))
+            files[ip] = dict(j=[jp] if jp else [], cid=contents, links=[])
+            contents += 1
+        elif r < 0.55:
+            d = rnd.choice(parents)
+            k = fresh()
+            ip = '%s/D%d' % (d, k)
+            rn = rrname(k) if rr else None
+            jp = (dirs[d][1] + '/' + jname(k)) if jol else None
+            ops.append(('dir', ip, rn, jp))
+            dirs[ip] = (rn, jp or '')
+        elif r < 0.67:
+            ip = rnd.choice(sorted(files))
+            f = files.pop(ip)
+            # rm_file removes every name of that content
+            ops.append(('rm_file', ip, f['j'][0] if f['j'] else None))
+            for other in [p for p, g in files.items() if g['cid'] == f['cid']]:
+                files.pop(other)
+        elif r < 0.75:
+            empties = [d for d in dirs if d and not any(p.startswith(d + '/') for p in list(files) + list(dirs))
+                       and not any(jp and jp.startswith(dirs[d][1] + '/') for g in files.values() for jp in g['j'])]
+            if not empties:
+                continue
+            d = rnd.choice(empties)
+            ops.append(('rm_dir', d, dirs[d][1] or None))
+            dirs.pop(d)
+        elif r < 0.85:
+            src = rnd.choice(sorted(files))
+            d = rnd.choice(parents)
+            k = fresh()
+            if jol and rnd.random() < 0.4:
+                jp = dirs[d][1] + '/' + jname(k)
+                ops.append(('jlink', src, jp))
+                files[src]['j'].append(jp)
+                for p, g in files.items():
+                    if g['cid'] == files[src]['cid'] and p != src:
+                        g['j'] = files[src]['j']
+            else:
+                ip = '%s/L%d.;1' % (d, k)
+                ops.append(('link', src, ip) + ((rrname(k),) if rr else ()))
+                files[ip] = dict(j=files[src]['j'], cid=files[src]['cid'], links=[])
+        elif r < 0.93 and rr:
+            d = rnd.choice(parents)
+            k = fresh()
+            ip = '%s/S%d.;1' % (d, k)
+            target = rnd.choice(['a', '/', '../x', './a/../b', 'c' * 255, '/'.join('p%d' % i for i in range(rnd.randint(2, 70))), 'q' * 300 + '/r', '/abs/' + 'z' * 100])
+            ops.append(('symlink', ip, rrname(k), target))
+        else:
+            ip = rnd.choice(sorted(files))
+            ops.append(('hide', ip))
+    return kw, ops
+
+
+def random_names(tier, flavours=None, quick_n=1, thorough_n=12):
+    """names of the random edit histories of a tier: seeds 1..n per flavour, shifted by VERIF_SEED so that other histories can be
+    explored without touching the checks"""
+    import os
+    base = int(os.environ.get('VERIF_SEED', '0') or 0) * 1000
+    n = quick_n if tier == 'quick' else thorough_n
+    return ['random:%s:%d' % (fl, base + k) for fl in (flavours or sorted(FLAVOURS)) for k in range(1, n + 1)]
+
+
+def get_script(name):
+    """(image keyword arguments, operations) of a table script or of 'random:<flavour>:<seed>'"""
+    if name.startswith('random:'):
+        parts = name.split(':')
+        return random_script(parts[1], int(parts[2]), int(parts[3]) if len(parts) > 3 else 28)
+    return SCRIPTS_ALL[name]
+
+
 def modes_of(script):
     """the POSIX mode each ISO path must show through Rock Ridge"""
     m = {}
@@ -157,7 +276,7 @@ def model_of(script):
 
 
 def build(c, name):
-    kw, script = SCRIPTS_ALL[name]
+    kw, script = get_script(name)
     iso = S.new_image(c, **kw)
     contents = {}
     rrflag = 'rock_ridge' in kw
@@ -239,7 +358,7 @@ class Mastered(Base):
 
     def post(self, c, a, out):
         img = list(a.out.items) if c.symbolic else list(a.out.getvalue())
-        kw, script = SCRIPTS_ALL[self.script]
+        kw, script = get_script(self.script)
         iso_m, jol_m, rr_m, hidden_m, sym_m, content_m = model_of(script)
         cl = {}
         try:
@@ -457,7 +576,7 @@ class Reopened(Base):
         return Call([a.fp], self_obj=a.re)
 
     def post(self, c, a, out):
-        kw, script = SCRIPTS_ALL[self.script]
+        kw, script = get_script(self.script)
         iso_m, jol_m, rr_m, hidden_m, sym_m, content_m = model_of(script)
         cl = {}
         cl['library-shows-the-expected-entries-and-bytes'] = library_view(c, a.re, {p: v for p, v in iso_m.items() if v[0] != 'symlink'}, content_m, a.contents, jol_m)
@@ -469,6 +588,10 @@ class Reopened(Base):
             return cl
         # C02: edit the opened image
         files = sorted(p for p, v in iso_m.items() if v[0] == 'file' and p.count('/') == 1)
+        if self.script != 'empty-files':
+            # the removal of an EMPTY file from an opened image is the subject of the 'empty-files' script (K21); elsewhere take a
+            # file with content when there is one
+            files = [p for p in files if content_m[iso_m[p][1]]] or sorted(p for p, v in iso_m.items() if v[0] == 'file' and content_m[v[1]])
         extra = c.bytes('extra_content', 10)
         ops = []
         if files:
@@ -800,7 +923,7 @@ class ReopenedForeignEmpty(Base):
         return Call([a.fp], self_obj=a.re)
 
     def post(self, c, a, out):
-        kw, script = SCRIPTS_ALL[self.script]
+        kw, script = get_script(self.script)
         iso_m, jol_m, rr_m, hidden_m, sym_m, content_m = model_of(script)
         cl = {'some-record-was-patched': a.patched > 0}
         cl['library-shows-the-expected-entries-and-bytes'] = library_view(c, a.re, {p: v for p, v in iso_m.items() if v[0] != 'symlink'}, content_m, a.contents, jol_m)
